@@ -31,6 +31,25 @@ pub struct App {
     /// records the delivery; what that inner logger does with its own errors is its own business
     #[serde(default)]
     pub nested: bool,
+    /// the appender is a foreign `log::Log` implementation whose `enabled()` says no to everything (a mere hint for
+    /// callers that bother to ask) while its `log()` records whatever it is handed: being attached and passing the
+    /// filter chain is all that decides delivery
+    #[serde(default)]
+    pub foreign_log: bool,
+}
+
+/// `log::Log` on top of the recording appender; `enabled()` is deliberately stricter than `log()`.
+#[derive(Debug)]
+struct ForeignLog(FA);
+
+impl log::Log for ForeignLog {
+    fn enabled(&self, _: &log::Metadata) -> bool {
+        false
+    }
+    fn log(&self, record: &log::Record) {
+        let _ = self.0.append(record);
+    }
+    fn flush(&self) {}
 }
 
 #[derive(Serialize, Deserialize, Debug, Clone)]
@@ -49,6 +68,10 @@ pub struct Case {
     /// every failing appender fails with the very same I/O error (a full disk hits them all): still one report each
     #[serde(default)]
     pub same_io_error: bool,
+    /// the error handler records the error and then panics (the caller of `log` catches it): every attached appender
+    /// whose chain delivers has been handed the record all the same
+    #[serde(default)]
+    pub handler_panics: bool,
 }
 
 #[derive(Default, Debug)]
@@ -147,8 +170,10 @@ pub fn check(case: &Case, obs: &mut Obs) -> CaseResult {
         for (mut run, single) in crate::glue::runs_by_style(boxed, case.style.rotate_left(ai as u32 * 7)) {
             ab = if single { ab.filter(run.pop().unwrap()) } else { ab.filters(run) };
         }
-        let fa = FA { app: ai, fails: a.fails && !a.nested, io: case.same_io_error, logs: logs.clone() };
-        let appender: Box<dyn Append> = if a.nested {
+        let fa = FA { app: ai, fails: a.fails && !a.nested && !a.foreign_log, io: case.same_io_error, logs: logs.clone() };
+        let appender: Box<dyn Append> = if a.foreign_log && !a.nested {
+            Box::new(ForeignLog(fa))
+        } else if a.nested {
             let inner = Config::builder().appender(Appender::builder().build("inner", Box::new(fa))).build(Root::builder().appender("inner").build(log::LevelFilter::Trace)).unwrap();
             Box::new(log4rs::Logger::new_with_err_handler(inner, Box::new(|_e: &anyhow::Error| {})))
         } else {
@@ -172,7 +197,16 @@ pub fn check(case: &Case, obs: &mut Obs) -> CaseResult {
     }
     let config = b.build(root.build(LEVEL_FILTERS[case.root_level as usize % 6])).map_err(|e| Failure { sig: "C03:config".into(), msg: e.to_string() })?;
     let l2 = logs.clone();
-    let logger = log4rs::Logger::new_with_err_handler(config, Box::new(move |e: &anyhow::Error| l2.lock().unwrap().errors.push(e.to_string())));
+    let handler_panics = case.handler_panics;
+    let logger = log4rs::Logger::new_with_err_handler(
+        config,
+        Box::new(move |e: &anyhow::Error| {
+            l2.lock().unwrap().errors.push(e.to_string());
+            if handler_panics {
+                panic!("error handler panics");
+            }
+        }),
+    );
     let mut verdicts_differ = false;
     let mut failing_before_healthy = false;
     let mut accept_before_reject = false;
@@ -180,8 +214,11 @@ pub fn check(case: &Case, obs: &mut Obs) -> CaseResult {
         let level = LEVELS[*lv as usize % 5];
         *logs.lock().unwrap() = Logs::default();
         let r = catch(|| with_record("t", level, &ri.to_string(), |r| logger.log(r)));
+        let unwound = r.is_err();
         if let Err(p) = r {
-            return fail("C03:panic", format!("log() panicked: {}", p));
+            if !case.handler_panics {
+                return fail("C03:panic", format!("log() panicked: {}", p));
+            }
         }
         let got = std::mem::take(&mut *logs.lock().unwrap());
         obs.sub_evals += 1;
@@ -211,7 +248,7 @@ pub fn check(case: &Case, obs: &mut Obs) -> CaseResult {
             verdicts.push(delivered);
             if delivered {
                 exp_deliveries.push(ai);
-                if a.fails && !a.nested {
+                if a.fails && !a.nested && !a.foreign_log {
                     exp_errors.push(if case.same_io_error { std::io::Error::from_raw_os_error(28).to_string() } else { format!("tag-{}-{}", ai, ri) });
                 }
             }
@@ -236,6 +273,12 @@ pub fn check(case: &Case, obs: &mut Obs) -> CaseResult {
         let mut ge = got.errors.clone();
         ge.sort();
         exp_errors.sort();
+        if case.handler_panics {
+            // the first report unwinds out of log(): at least that one was made, nothing was reported that did not happen
+            ensure!(unwound == !exp_errors.is_empty(), "C03:error-handler", "panicking error handler: log() {} although {} appender errors were due", if unwound { "unwound" } else { "returned" }, exp_errors.len());
+            ensure!(ge.iter().all(|e| exp_errors.contains(e)) && ge.is_empty() == exp_errors.is_empty(), "C03:error-handler", "panicking error handler saw {:?}, failing delivered appenders: {:?}", ge, exp_errors);
+            continue;
+        }
         ensure!(
             ge == exp_errors,
             "C03:error-handler",
@@ -263,6 +306,8 @@ pub fn check(case: &Case, obs: &mut Obs) -> CaseResult {
     obs.class_if(accept_before_reject, "accept-before-reject");
     obs.class_if(case.apps.iter().any(|a| a.chain.iter().any(|f| matches!(f, F::Threshold(_)))), "real-threshold-filter");
     obs.class(format!("appenders={}", case.apps.len()));
+    obs.class_if(case.handler_panics, "error-handler-panics");
+    obs.class_if(case.apps.iter().any(|a| a.foreign_log && !a.nested), "foreign-log-appender-with-strict-enabled");
     Ok(())
 }
 
@@ -279,12 +324,12 @@ fn filter_strategy() -> impl Strategy<Value = F> {
 pub fn strategy() -> impl Strategy<Value = Case> {
     (
         prop_oneof![3 => Just(5u8), 1 => 0u8..6],
-        prop::collection::vec((prop::collection::vec(filter_strategy(), 0..=5), prop::bool::weighted(0.35), prop::bool::weighted(0.2)).prop_map(|(chain, fails, nested)| App { chain, fails, nested }), 1..=4),
+        prop::collection::vec((prop::collection::vec(filter_strategy(), 0..=5), prop::bool::weighted(0.35), prop::bool::weighted(0.2), prop::bool::weighted(0.15)).prop_map(|(chain, fails, nested, foreign_log)| App { chain, fails, nested, foreign_log }), 1..=4),
         prop::collection::vec(0u8..5, 1..=5),
         any::<u64>(),
-        (prop::bool::weighted(0.15), prop::bool::weighted(0.3)),
+        (prop::bool::weighted(0.15), prop::bool::weighted(0.3), prop::bool::weighted(0.15)),
     )
-        .prop_map(|(root_level, apps, records, style, (handler_panicked_before, same_io_error))| Case { root_level, apps, records, style, handler_panicked_before, same_io_error })
+        .prop_map(|(root_level, apps, records, style, (handler_panicked_before, same_io_error, handler_panics))| Case { root_level, apps, records, style, handler_panicked_before, same_io_error, handler_panics })
 }
 
 #[derive(Serialize, Deserialize, Debug, Clone)]
@@ -328,10 +373,10 @@ fn sweep(run: &Run) {
         for fails in [false, true] {
             for pos in [0usize, 1] {
                 for companion_fails in [false, true] {
-                    let studied = App { chain: chain.clone(), fails, nested: false };
-                    let companion = App { chain: vec![], fails: companion_fails, nested: !companion_fails && chain.len() % 2 == 1 };
+                    let studied = App { chain: chain.clone(), fails, nested: false, foreign_log: false };
+                    let companion = App { chain: vec![], fails: companion_fails, nested: !companion_fails && chain.len() % 2 == 1, foreign_log: !companion_fails && chain.len() % 3 == 2 };
                     let apps = if pos == 0 { vec![studied, companion] } else { vec![companion, studied] };
-                    ok &= run.eval_one("chains-exhaustive", &Case { root_level: 5, style: fnv64(format!("{:?}", apps).as_bytes()), apps, records: vec![2], handler_panicked_before: false, same_io_error: false }, &check);
+                    ok &= run.eval_one("chains-exhaustive", &Case { root_level: 5, style: fnv64(format!("{:?}", apps).as_bytes()), apps, records: vec![2], handler_panicked_before: false, same_io_error: false, handler_panics: false }, &check);
                 }
             }
         }
@@ -363,7 +408,7 @@ pub fn replay(part: &str, case: serde_json::Value) -> Option<CaseResult> {
 pub fn meta() -> EvidenceMeta {
     EvidenceMeta {
         level: "exploration",
-        rule: "cases = 1-4 appenders on the root, each with a chain of 0-5 filters (scripted Accept/Neutral/Reject that log their consultation, real ThresholdFilters at generated levels wrapped to observe the consultation) and a scripted outcome (Ok / Err(tag)), root level generated, 1-5 records at generated levels; plus exhaustive sweeps (121 chains <= 4 x failing/healthy x position x companion; threshold truth table). Oracle per appender independently: filters consulted = chain prefix up to and including the first non-Neutral answer, delivered iff that answer is Accept or none exists, another appender's rejection/error never changes this, error handler receives exactly the tags of failing delivered appenders once each; no consultation for records the logger does not admit. An appender may be a whole nested log4rs::Logger. Chains may hold the library's ThresholdFilter unwrapped; in 30% of the cases every failing appender fails with the very same std::io::Error. Filters and appender references are attached through a mix of singular and bulk builder calls; in 15% of the cases the error handler of another logger panicked earlier on the thread (caught). non-trivial = >=2 appenders with different verdicts, or a failing appender before a healthy one, or an Accept before a Reject in one chain".into(),
+        rule: "cases = 1-4 appenders on the root, each with a chain of 0-5 filters (scripted Accept/Neutral/Reject that log their consultation, real ThresholdFilters at generated levels wrapped to observe the consultation) and a scripted outcome (Ok / Err(tag)), root level generated, 1-5 records at generated levels; plus exhaustive sweeps (121 chains <= 4 x failing/healthy x position x companion; threshold truth table). Oracle per appender independently: filters consulted = chain prefix up to and including the first non-Neutral answer, delivered iff that answer is Accept or none exists, another appender's rejection/error never changes this, error handler receives exactly the tags of failing delivered appenders once each; no consultation for records the logger does not admit. An appender may be a whole nested log4rs::Logger, or a foreign log::Log whose enabled() refuses everything while its log() records (attachment and chain alone decide delivery). In 15% of the cases the error handler panics after recording the error: every appender whose chain delivers has been served all the same. Chains may hold the library's ThresholdFilter unwrapped; in 30% of the cases every failing appender fails with the very same std::io::Error. Filters and appender references are attached through a mix of singular and bulk builder calls; in 15% of the cases the error handler of another logger panicked earlier on the thread (caught). non-trivial = >=2 appenders with different verdicts, or a failing appender before a healthy one, or an Accept before a Reject in one chain".into(),
         assumptions: vec!["filters and appenders are harness implementations (plus the real ThresholdFilter)".into()],
         mutants_caught: vec![],
     }
